@@ -1,0 +1,214 @@
+//! Verification hook (compiled only with `--cfg rustemo_verif`).
+//!
+//! Dumps the grammar the compiler analyses and the LR table it computes as a
+//! JSON string so that an external checker can compare them with a
+//! specification. Nothing here is used by the compiler itself.
+use std::fmt::Write;
+
+use crate::{
+    grammar::{builder::GrammarBuilder, Associativity, Grammar},
+    index::{StateIndex, TermIndex},
+    lang::{rustemo::RustemoParser, rustemo_actions::Recognizer},
+    settings::Settings,
+};
+use rustemo::Parser;
+
+use super::{Action, LRTable};
+
+fn esc(s: &str) -> String {
+    let mut o = String::with_capacity(s.len() + 2);
+    o.push('"');
+    for c in s.chars() {
+        match c {
+            '"' => o.push_str("\\\""),
+            '\\' => o.push_str("\\\\"),
+            '\n' => o.push_str("\\n"),
+            '\r' => o.push_str("\\r"),
+            '\t' => o.push_str("\\t"),
+            c if (c as u32) < 0x20 => {
+                let _ = write!(o, "\\u{:04x}", c as u32);
+            }
+            c => o.push(c),
+        }
+    }
+    o.push('"');
+    o
+}
+
+fn assoc(a: &Associativity) -> &'static str {
+    match a {
+        Associativity::None => "\"none\"",
+        Associativity::Left => "\"left\"",
+        Associativity::Right => "\"right\"",
+    }
+}
+
+fn list<T, F: Fn(&T) -> String>(items: impl IntoIterator<Item = T>, f: F) -> String {
+    format!(
+        "[{}]",
+        items
+            .into_iter()
+            .map(|i| f(&i))
+            .collect::<Vec<_>>()
+            .join(",")
+    )
+}
+
+fn opt_idx(i: Option<usize>) -> String {
+    match i {
+        Some(i) => i.to_string(),
+        None => "-1".to_string(),
+    }
+}
+
+/// Parses the grammar text the same way `generate_parser` does.
+pub fn parse_grammar(text: &str) -> crate::Result<Grammar> {
+    let file = RustemoParser::new().parse(text)?;
+    Ok(GrammarBuilder::new().try_from_file(file, None)?)
+}
+
+fn grammar_fields(g: &Grammar) -> String {
+    let mut o = String::new();
+    let _ = write!(
+        o,
+        "\"nterm\":{},\"nsym\":{},\"empty\":{},\"stop\":{},\"aug\":{},\"augl\":{},\"start\":{},",
+        g.terminals.len(),
+        g.terminals.len() + g.nonterminals.len(),
+        g.empty_index.0,
+        g.stop_index.0,
+        g.augmented_index.0,
+        opt_idx(g.augmented_layout_index.map(|i| i.0)),
+        g.start_index.0
+    );
+    let _ = write!(
+        o,
+        "\"terms\":{},",
+        list(g.terminals.iter(), |t| {
+            let (k, s) = match &t.recognizer {
+                Some(Recognizer::StrConst(s)) => ("str", s.as_ref().clone()),
+                Some(Recognizer::RegexTerm(s)) => ("re", s.as_ref().clone()),
+                None => ("none", String::new()),
+            };
+            format!(
+                "{{\"name\":{},\"rk\":\"{}\",\"rs\":{},\"prio\":{},\"assoc\":{},\"content\":{},\"reach\":{}}}",
+                esc(&t.name),
+                k,
+                esc(&s),
+                t.prio,
+                assoc(&t.assoc),
+                t.has_content,
+                t.reachable.get()
+            )
+        })
+    );
+    let _ = write!(
+        o,
+        "\"nonterms\":{},",
+        list(g.nonterminals.iter(), |n| {
+            format!(
+                "{{\"name\":{},\"prods\":{},\"ann\":{},\"reach\":{}}}",
+                esc(&n.name),
+                list(n.productions.iter(), |p| p.0.to_string()),
+                esc(n.annotation.as_deref().unwrap_or("")),
+                n.reachable.get()
+            )
+        })
+    );
+    let _ = write!(
+        o,
+        "\"prods\":{}",
+        list(g.productions.iter(), |p| {
+            format!(
+                "{{\"lhs\":{},\"rhs\":{},\"names\":{},\"bools\":{},\"prio\":{},\"assoc\":{},\"nops\":{},\"nopse\":{},\"kind\":{},\"ntidx\":{},\"meta\":{}}}",
+                g.nonterm_to_symbol_index(p.nonterminal).0,
+                list(p.rhs_symbols(), |s| s.0.to_string()),
+                list(p.rhs.iter(), |a| esc(
+                    a.name.as_ref().map(|n| n.as_ref().as_str()).unwrap_or("")
+                )),
+                list(p.rhs.iter(), |a| a.is_bool.to_string()),
+                p.prio,
+                assoc(&p.assoc),
+                p.nops,
+                p.nopse,
+                esc(p.kind.as_deref().unwrap_or("")),
+                p.ntidx,
+                list(p.meta.keys(), |k| esc(k))
+            )
+        })
+    );
+    o
+}
+
+/// The grammar as the compiler sees it after building (symbols, productions,
+/// meta-data).
+pub fn grammar_json(text: &str) -> crate::Result<String> {
+    let g = parse_grammar(text)?;
+    Ok(format!("{{{}}}", grammar_fields(&g)))
+}
+
+fn action_json(a: &Action) -> String {
+    match a {
+        Action::Shift(s) => format!("{{\"k\":\"s\",\"s\":{},\"p\":-1,\"n\":-1}}", s.0),
+        Action::Reduce(p, n) => format!("{{\"k\":\"r\",\"s\":-1,\"p\":{},\"n\":{}}}", p.0, n),
+        Action::Accept => "{\"k\":\"a\",\"s\":-1,\"p\":-1,\"n\":-1}".to_string(),
+    }
+}
+
+fn table_fields(g: &Grammar, table: &LRTable) -> String {
+    let mut o = String::new();
+    let _ = write!(
+        o,
+        "\"layout_state\":{},\"rn\":{},\"nconflicts\":{},",
+        opt_idx(table.layout_state.map(|s| s.0)),
+        match &table.production_rn_lengths {
+            Some(l) => list(l.iter(), |x| x.to_string()),
+            None => "[]".to_string(),
+        },
+        table.get_conflicts().len()
+    );
+    let _ = write!(
+        o,
+        "\"states\":{}",
+        list(table.states.iter(), |st| {
+            format!(
+                "{{\"sym\":{},\"items\":{},\"actions\":{},\"gotos\":{},\"sorted\":{},\"maxprio\":{}}}",
+                st.symbol.0,
+                list(st.items.iter(), |i| format!(
+                    "{{\"p\":{},\"d\":{},\"la\":{},\"k\":{},\"red\":{}}}",
+                    i.prod.0,
+                    i.position,
+                    list(i.follow.borrow().iter(), |f| f.0.to_string()),
+                    i.is_kernel(),
+                    i.is_reducing()
+                )),
+                list(st.actions.iter(), |acts| list(acts.iter(), |a| action_json(a))),
+                list(st.gotos.iter(), |gt| opt_idx(gt.map(|s: StateIndex| s.0))),
+                list(st.sorted_terminals.iter(), |(t, f)| format!(
+                    "[{},{}]",
+                    t.0,
+                    if *f { 1 } else { 0 }
+                )),
+                list(
+                    (0..g.terminals.len()).map(TermIndex),
+                    |t| st
+                        .max_prior_for_term
+                        .get(t)
+                        .map(|p| p.to_string())
+                        .unwrap_or_else(|| "-1".to_string())
+                )
+            )
+        })
+    );
+    o
+}
+
+/// The grammar together with the LR table computed for the given settings.
+pub fn table_json(text: &str, settings: &Settings) -> crate::Result<String> {
+    let g = parse_grammar(text)?;
+    let table = LRTable::new(&g, settings)?;
+    Ok(format!(
+        "{{{},{}}}",
+        grammar_fields(&g),
+        table_fields(&g, &table)
+    ))
+}
